@@ -10,9 +10,9 @@ GEN_FILE = "Commit.lean"
 # recognised statement forms, in the vocabulary of Model/Commit.lean `Step`
 FORMS = [
     ("create", r"TempFile\s*::\s*create\s*\("),
-    ("copy", r"\bio\s*::\s*copy\s*\(|\bfill\s*\("),
+    ("copy", r"\bio\s*::\s*copy\s*\(|\bfill\s*\("),  # `fill` = the name of write_file's `Fill` parameter (substituted)
     ("intoTrailer", r"\.\s*into_trailer\s*\("),
-    ("checkLast", r"!\s*reader\s*\.\s*last_seen"),
+    ("checkLast", r"if\s+!\s*\w+\s*\.\s*last_seen\s*\{"),
     ("flush", r"\.\s*file_mut\s*\(\s*\)\s*\.\s*flush\s*\("),
     ("sync", r"\.\s*file_mut\s*\(\s*\)\s*\.\s*sync_all\s*\("),
     ("verify", r"\bverify\s*\("),
@@ -20,12 +20,42 @@ FORMS = [
 ]
 
 
-def order(body):
-    """Recognised statements of `body` in textual order."""
+def _after_call(body, open_paren):
+    """Index just past the `)` matching body[open_paren] == '('."""
+    depth = 0
+    for j in range(open_paren, len(body)):
+        if body[j] == "(":
+            depth += 1
+        elif body[j] == ")":
+            depth -= 1
+            if depth == 0:
+                return j + 1
+    raise ExtractError("unbalanced parentheses")
+
+
+def order(body, fill_name="fill"):
+    """Recognised statements of `body` in textual order.  A fallible step counts only when its result is
+    propagated (`…?`); `commit` when it is propagated or is the value of the block / match arm.  A call whose
+    result is dropped (`let _ = x.sync_all();`, `.ok();`, a bare `;`) is NOT a step — the pessimistic reading:
+    the list then differs from the canonical one and the theorems that need the step break."""
     hits = []
     for name, rx in FORMS:
+        if name == "copy":
+            rx = rx.replace(r"\bfill\s*\(", r"\b" + re.escape(fill_name) + r"\s*\(")
         for m in re.finditer(rx, body):
-            hits.append((m.start(), name))
+            if name == "checkLast":
+                # the guarded block must leave the function with an error
+                k = body.find("{", m.end() - 1)
+                blk = body[k:match_brace(body, k)]
+                if re.search(r"return\s+Err\s*\(", blk):
+                    hits.append((m.start(), name))
+                continue
+            end = _after_call(body, m.end() - 1)
+            nxt = body[end:end + 40].lstrip()
+            if nxt.startswith("?"):
+                hits.append((m.start(), name))
+            elif name == "commit" and (nxt == "" or nxt[0] in ",}"):
+                hits.append((m.start(), name))
     hits.sort()
     return [n for _, n in hits]
 
@@ -48,13 +78,23 @@ def extract():
     src = test_mod_cut(strip(read("src/value_stream.rs")))
     # run_pull: `pull_res?;` before `match consume_res`
     rp = fn_body(src, "run_pull")
-    a = re.search(r"\bpull_res\s*\?\s*;", rp)
-    b = re.search(r"\bmatch\s+consume_res\b", rp)
+    # names are whatever the source calls them: `let P = pull_loop_async(..).await;`, `let T = ..spawn_blocking(..)`,
+    # `let C = T.await;`
+    pm = re.search(r"let\s+(\w+)\s*=\s*pull_loop_async\s*\(", rp)
+    tm = re.search(r"let\s+(\w+)\s*=\s*tokio\s*::\s*task\s*::\s*spawn_blocking\s*\(", rp)
+    if not pm or not tm:
+        raise ExtractError("run_pull: pull_loop_async / spawn_blocking bindings not found")
+    cm = re.search(r"let\s+(\w+)\s*=\s*" + re.escape(tm.group(1)) + r"\s*\.\s*await\s*;", rp)
+    if not cm:
+        raise ExtractError("run_pull: consumer result binding not found")
+    pres, cres = pm.group(1), cm.group(1)
+    a = re.search(r"\b" + re.escape(pres) + r"\s*\?\s*;", rp)
+    b = re.search(r"\bmatch\s+" + re.escape(cres) + r"\b", rp)
     if not b:
-        raise ExtractError("run_pull: match consume_res not found")
+        raise ExtractError("run_pull: match on the consumer result not found")
     pull_first = bool(a) and a.start() < b.start()
-    # every early `return`/`?` on consume_res before pull_res? would defeat it
-    if pull_first and re.search(r"consume_res\s*\?", rp[:a.start()]):
+    # any use of the consumer's result before `pull_res?` (an early return of its value, `?`, `if let Ok`) defeats it
+    if pull_first and re.search(r"\b" + re.escape(cres) + r"\b", rp[cm.end():a.start()]):
         pull_first = False
     pull_step = ["pullRes"] if pull_first else []
     # pull_consume_async forwards to run_pull; pull_consume (sync) runs the closure in place
@@ -62,7 +102,9 @@ def extract():
         raise ExtractError("pull_consume_async does not call run_pull")
 
     wf = fn_body(src, "write_file")
-    steps = {"writeFile": order(wf)}
+    wsig = src[re.search(r"\bfn\s+write_file\b", src).start():]
+    fp = re.search(r"(\w+)\s*:\s*Fill\b", wsig[:wsig.find("{")] if "where" not in wsig[:wsig.find("{")] else wsig[:wsig.find("where")])
+    steps = {"writeFile": order(wf, fp.group(1) if fp else "fill")}
     # the error arm of write_file must not commit: exactly one commit, inside `Ok(()) => guard.commit(`
     wf_commit_ok_only = len(re.findall(r"\.\s*commit\s*\(", wf)) == 1 and \
         re.search(r"Ok\s*\(\s*\(\s*\)\s*\)\s*=>\s*guard\s*\.\s*commit\s*\(", wf) is not None
@@ -73,9 +115,8 @@ def extract():
         body = fn_body(src, fn)
         clos, post = split_consumer(body, call)
         steps[key] = order(clos) + (pull_step if asyn else []) + order(post)
-    for k, v in steps.items():
-        if "create" not in v or "commit" not in v:
-            raise ExtractError(f"{k}: create/commit not recognised: {v}")
+    # (a shape whose create / commit is not recognised — e.g. a commit whose result is dropped — is reported as
+    # it is: the list then differs from the canonical one, which is the pessimistic outcome)
 
     # pull_stream's three file outputs all go through write_file
     ps = fn_body(src, "pull_stream")
